@@ -218,6 +218,10 @@ func (d *derivation) propagate(fn *ssa.Function) {
 					if name == "Unroll" {
 						add(d.unroll, x)
 					}
+					if name == "Shape" {
+						// Shape() hands out the array's own Dims vector: writing it re-shapes the shared array
+						add(d.unroll, x)
+					}
 				}
 			}
 		})
